@@ -546,7 +546,8 @@ impl ExprTypeChecker<'_, '_> {
             )));
         }
 
-        zip!(1.., args, &siggy.params).map(|(param_num, arg, param)| {
+        let crate::context::defs::MatchedArgs { positional_pairs } = siggy.match_params_to_args(args);
+        zip!(1.., positional_pairs).map(|(param_num, (param, arg))| {
             let arg_ty = self.check_expr_as_value(arg, name.span)?;
             if let VarType::Typed(param_ty) = param.ty.value {
                 if arg_ty != param_ty {
